@@ -279,6 +279,20 @@ fn execute_c15(case: &Value, _scratch: &str) -> Outcome {
         }
     };
     let mut stored = Vec::new();
+    if case["legacy_first"].as_bool().unwrap_or(false) {
+        // a legacy 16-bit hash attribute was present before (as after loading an old file)
+        match kf {
+            "sheet" => {
+                book.get_sheet_mut(&0).unwrap().get_sheet_protection_mut().set_password_raw("CAFE");
+            }
+            "workbook" => {
+                book.get_workbook_protection_mut().set_workbook_password_raw("CAFE");
+            }
+            _ => {
+                book.get_workbook_protection_mut().set_revisions_password_raw("CAFE");
+            }
+        }
+    }
     let r = guarded(|| {
         umya::verif_hooks::with_entropy(src, || {
             for _ in 0..2 {
@@ -417,5 +431,6 @@ pub fn cases_c15(run_seed: u64, _tier: &str, _scratch: &str) -> Vec<Value> {
     let mode = ["prng", "prng", "prng", "zero", "ff", "b64special"][sw.usize(6)];
     c["entropy"] = json!({"mode": mode, "seed": hex64(en.next_u64())});
     c["light"] = json!(sw.chance(1, 3));
+    c["legacy_first"] = json!(sw.chance(1, 3));
     vec![c]
 }
